@@ -59,6 +59,8 @@ func BuildMsg(t TxSpec) sdk.Msg {
 		return posTypes.MsgSend{FromAddress: Addr(t.From), ToAddress: Addr(t.To), Amount: sdk.NewInt(t.Amount)}
 	case "send_pool":
 		return posTypes.MsgSend{FromAddress: Addr(t.From), ToAddress: authTypes.NewModuleAddress(posTypes.StakedPoolName), Amount: sdk.NewInt(t.Amount)}
+	case "send_module": // a plain send to the address of the module account named by Key
+		return posTypes.MsgSend{FromAddress: Addr(t.From), ToAddress: authTypes.NewModuleAddress(t.Key), Amount: sdk.NewInt(t.Amount)}
 	case "stake":
 		return posTypes.MsgStake{PubKey: Pub(t.From), Value: sdk.NewInt(t.Amount)}
 	case "unstake":
